@@ -2,7 +2,7 @@
 //! uniformly spaced instants; sinusoids within the classical interpolation bound.
 
 use crate::cfg::{Cfg, Degree, Kind};
-use crate::e2::resample_all_opts;
+use crate::e2::{resample_all_x, Opts};
 use crate::frame::{Check, JournalFile, Tier};
 use crate::run::Flt;
 use serde_json::{json, Map, Value};
@@ -24,6 +24,9 @@ struct Item {
     /// the relative ratio is set with ramp = true: the first chunk is the ramp, the stream runs
     /// at the new ratio from the second chunk on (frames of the first call are not compared)
     ramp: bool,
+    /// a second relative ratio, set (no ramp) after two processing calls; `ratio` is then
+    /// construction ratio x this factor, and frames of the first two calls are not compared
+    pre2: Option<f64>,
 }
 
 impl Item {
@@ -44,13 +47,16 @@ fn items(tier: Tier) -> Vec<Item> {
     for degree in Degree::ALL {
         for &ratio in &ratios {
             for kind in [Kind::FI, Kind::FO] {
-                v.push(Item { degree, ratio, kind, pre: None, ramp: false });
+                v.push(Item { degree, ratio, kind, pre: None, ramp: false, pre2: None });
             }
         }
         for (r0, m, x) in [(1.0, 4.0, 4.0), (1.0, 4.0, 0.25), (0.5, 2.0, 1.7), (2.0, 2.0, 0.6)] {
             for kind in [Kind::FI, Kind::FO] {
-                v.push(Item { degree, ratio: r0 * x, kind, pre: Some((r0, m, x)), ramp: false });
-                v.push(Item { degree, ratio: r0 * x, kind, pre: Some((r0, m, x)), ramp: true });
+                v.push(Item { degree, ratio: r0 * x, kind, pre: Some((r0, m, x)), ramp: false, pre2: None });
+                v.push(Item { degree, ratio: r0 * x, kind, pre: Some((r0, m, x)), ramp: true, pre2: None });
+                // a second change after two calls: back towards the other end of the range
+                let x2 = if x > 1.0 { 1.0 / m.min(2.0) } else { m.min(2.0) };
+                v.push(Item { degree, ratio: r0 * x2, kind, pre: Some((r0, m, x)), ramp: false, pre2: Some(x2) });
             }
         }
     }
@@ -77,14 +83,15 @@ fn fail(acc: &mut Acc, cfg: &Cfg, sig: &str, detail: String, point: String) {
 
 /// The instants at which the output frames are evaluated, from the same configuration with
 /// `Linear` (which reproduces the index signal exactly); control is degree independent.
-fn instants(cfg: &Cfg, n_in: usize, rel: Option<f64>, ramp: bool) -> Result<(Vec<f64>, usize), String> {
+fn instants(cfg: &Cfg, n_in: usize, rel: Option<f64>, ramp: bool, pre2: Option<f64>) -> Result<(Vec<f64>, usize), String> {
     let mut c = cfg.clone();
     c.degree = Degree::Linear;
     let base = 1048576.0;
     let x: Vec<f64> = (0..n_in).map(|n| n as f64 + base).collect();
-    let s = resample_all_opts::<f64>(&c, &x, rel, ramp, false)?;
-    // frames of the first call (the ramp chunk when a ramp was requested)
-    let first_call = s.calls.first().map(|c| c.1).unwrap_or(0);
+    let s = resample_all_x::<f64>(&c, &x, &Opts { pre: rel, ramp, pre2: pre2.map(|x| (x, 2)), ..Opts::default() })?;
+    // frames of the first call (the ramp chunk when a ramp was requested), or of the first two
+    // calls when the ratio is changed again after them
+    let first_call = if pre2.is_some() { s.calls.iter().take(2).map(|c| c.1).sum() } else { s.calls.first().map(|c| c.1).unwrap_or(0) };
     Ok((s.out.iter().map(|y| y - base).collect(), first_call))
 }
 
@@ -95,11 +102,12 @@ fn one<T: Flt>(acc: &mut Acc, item: &Item, chunk: usize, journal: Option<&Journa
     let n_in = (6.0 * chunk as f64 * (1.0f64).max(1.0 / item.ratio)) as usize + 200;
     let n_in = n_in.min(20000);
     let ramp = item.ramp;
-    let (tau, first_call) = instants(&cfg, n_in, rel, ramp)?;
+    let pre2 = item.pre2;
+    let (tau, first_call) = instants(&cfg, n_in, rel, ramp, pre2)?;
     // uniform spacing 1/ratio
     let step = 1.0 / item.ratio;
     let mut first_valid = tau.iter().position(|t| *t >= 4.0).unwrap_or(tau.len());
-    if ramp {
+    if ramp || pre2.is_some() {
         first_valid = first_valid.max(first_call + 1).min(tau.len());
     }
     for w in tau[first_valid..].windows(2) {
@@ -117,7 +125,7 @@ fn one<T: Flt>(acc: &mut Acc, item: &Item, chunk: usize, journal: Option<&Journa
         let x: Vec<f64> = (0..n_in).map(|n| (n as f64 / 64.0).powi(k as i32)).collect();
         // in f32 the input itself is rounded: compare with the polynomial through the rounded
         // samples only up to the conditioning of the interpolation formula
-        let s = resample_all_opts::<T>(&cfg, &x, rel, ramp, false)?;
+        let s = resample_all_x::<T>(&cfg, &x, &Opts { pre: rel, ramp, pre2: pre2.map(|x| (x, 2)), ..Opts::default() })?;
         acc.evals += 1;
         let n = s.out.len().min(tau.len());
         let mut worst = 0.0f64;
@@ -220,7 +228,7 @@ fn one<T: Flt>(acc: &mut Acc, item: &Item, chunk: usize, journal: Option<&Journa
         for f in [0.05f64, 0.1, 0.2, 0.4] {
             let w = std::f64::consts::PI * f;
             let x: Vec<f64> = (0..n_in).map(|n| (w * n as f64 + 0.3).sin()).collect();
-            let s = resample_all_opts::<f64>(&cfg, &x, rel, ramp, false)?;
+            let s = resample_all_x::<f64>(&cfg, &x, &Opts { pre: rel, ramp, pre2: pre2.map(|x| (x, 2)), ..Opts::default() })?;
             acc.evals += 1;
             let n = s.out.len().min(tau.len());
             let mut worst = 0.0f64;
@@ -251,7 +259,8 @@ fn sawtooth<T: Flt>(acc: &mut Acc, item: &Item, chunk: usize, journal: Option<&J
     let span = chunk as f64 * if item.kind == Kind::FO { 1.0 / item.ratio } else { 1.0 };
     let n_in = (2.2 * span) as usize + 400;
     let ramp = item.ramp;
-    let (tau, first_call) = instants(&cfg, n_in, rel, ramp)?;
+    let pre2 = item.pre2;
+    let (tau, first_call) = instants(&cfg, n_in, rel, ramp, pre2)?;
     let deg = item.degree.degree();
     let eps_t = if T::IS_F32 { f32::EPSILON as f64 } else { f64::EPSILON };
     let (lo, hi) = match item.degree {
@@ -268,13 +277,13 @@ fn sawtooth<T: Flt>(acc: &mut Acc, item: &Item, chunk: usize, journal: Option<&J
         }
         let tooth = |n: f64| (((n % 64.0) - 32.0) / 8.0).powi(k as i32);
         let x: Vec<f64> = (0..n_in).map(|n| tooth(n as f64)).collect();
-        let s = resample_all_opts::<T>(&cfg, &x, rel, ramp, false)?;
+        let s = resample_all_x::<T>(&cfg, &x, &Opts { pre: rel, ramp, pre2: pre2.map(|x| (x, 2)), ..Opts::default() })?;
         acc.evals += 1;
         let n = s.out.len().min(tau.len());
         let (mut worst, mut worst_at, mut count) = (0.0f64, 0usize, 0u64);
         for j in 0..n {
             let t = tau[j];
-            if t < 4.0 || (ramp && j <= first_call) {
+            if t < 4.0 || ((ramp || pre2.is_some()) && j <= first_call) {
                 continue;
             }
             if t + 5.0 >= s.consumed as f64 {
@@ -362,7 +371,7 @@ impl Check for C08 {
             sawtooth::<f64>(&mut acc, &item, chunk, journal)?;
             sawtooth::<f32>(&mut acc, &item, chunk, journal)?;
         }
-        let label = format!("{} {} r={:?}{}", item.kind.name(), item.degree.name(), item.ratio, item.pre.map(|p| format!(" (constructed at {}, set_resample_ratio_relative({}, {}))", p.0, p.2, item.ramp)).unwrap_or_default());
+        let label = format!("{} {} r={:?}{}", item.kind.name(), item.degree.name(), item.ratio, item.pre.map(|p| format!(" (constructed at {}, set_resample_ratio_relative({}, {}))", p.0, p.2, item.ramp)).unwrap_or_default() + &item.pre2.map(|x| format!(" then set_resample_ratio_relative({}, false) after two calls", x)).unwrap_or_default());
         let sharp_min = acc.sharp.iter().cloned().fold(f64::INFINITY, f64::min);
         Ok(json!({
             "label": label, "evaluations": acc.evals, "nontrivial": acc.nontrivial,
@@ -382,7 +391,7 @@ impl Check for C08 {
         crate::frame::replay_by_item(self, replay)
     }
     fn rule(&self, _tier: Tier) -> String {
-        "full product of degree(5) x ratio (also 4 ratios reached by set_resample_ratio_relative on the fresh resampler, without ramp and with ramp - then from the second chunk on) x {FastFixedIn, FastFixedOut} x chunk x {f32,f64} x monomial (n/64)^k for k = 0..degree (must be exact to rounding) and k = degree+1 (must equal the polynomial through exactly the documented nodes, error term prod(t-node)/64^k included), every output frame of six chunks whose window lies in supplied data; Nearest: the input sample at or just before the instant, bit-exact; four tones against the classical bound C_d*(pi f)^(d+1); large chunks (4096, 32768 and 100000 frames): sawtooth of local polynomials (((n mod 64)-32)/8)^k, k = 1..degree, every output frame whose window lies inside one tooth, to 6 eps (f32) of the largest sample in the window. Non-trivial = more than 16 frames compared".into()
+        "full product of degree(5) x ratio (also 4 ratios reached by set_resample_ratio_relative on the fresh resampler, without ramp, with ramp - then from the second chunk on -, and followed by a second change after two calls) x {FastFixedIn, FastFixedOut} x chunk x {f32,f64} x monomial (n/64)^k for k = 0..degree (must be exact to rounding) and k = degree+1 (must equal the polynomial through exactly the documented nodes, error term prod(t-node)/64^k included), every output frame of six chunks whose window lies in supplied data; Nearest: the input sample at or just before the instant, bit-exact; four tones against the classical bound C_d*(pi f)^(d+1); large chunks (4096, 32768 and 100000 frames): sawtooth of local polynomials (((n mod 64)-32)/8)^k, k = 1..degree, every output frame whose window lies inside one tooth, to 6 eps (f32) of the largest sample in the window. Non-trivial = more than 16 frames compared".into()
     }
     fn assumptions(&self) -> Vec<String> {
         vec![
